@@ -538,4 +538,35 @@ theorem fit_raise_sites (S : Schema) (hS : S ∈ familySchemas) (st : FitState) 
   PM.C11.fit_raise_sites S (family_det _ hS) (family_fillersOK _ hS) (family_wrapOK _ hS) (family_labelsOK _ hS)
     st hin hwf e h
 
+/-- `PM.C11.trivialFit_delete_applies` with its schema guards discharged for the bundled schema family -/
+theorem trivialFit_delete_applies (S : Schema) (hS : S ∈ domFamilySchemas) (doc : Node) (f t : Nat)
+    (hv : C01.Valid S doc) (hdoc : C01.IsElem doc) (hn : fnorm doc.kids = true) (hft : f ≤ t)
+    (hpf : pairAligned doc f = true) (hpt : pairAligned doc t = true)
+    (htr : fitsTriviallyO S doc f t Slice.empty = some true) :
+    ∃ doc', S.apply (.replace f t Slice.empty false) doc = .ok doc' :=
+  PM.C11.trivialFit_delete_applies S (family_textStable _ hS) doc f t hv hdoc hn hft hpf hpt htr
+
+/-- `PM.C11.delete_applies_flat` with its schema guards discharged for the bundled schema family -/
+theorem delete_applies_flat (S : Schema) (hS : S ∈ domFamilySchemas) (doc : Node) (f t : Nat)
+    (hv : C01.Valid S doc) (hdoc : C01.IsElem doc) (hn : fnorm doc.kids = true) (hft : f ≤ t)
+    (hpf : pairAligned doc f = true) (hpt : pairAligned doc t = true)
+    (htr : fitsTriviallyO S doc f t Slice.empty = some true) (st : Step)
+    (h : replaceStep S doc f t Slice.empty = .ok (some st)) :
+    st = .replace f t Slice.empty false ∧ ∃ doc', S.apply st doc = .ok doc' :=
+  PM.C11.delete_applies_flat S (family_textStable _ hS) doc f t hv hdoc hn hft hpf hpt htr st h
+
+/-- `PM.C11.delete_never_raises_flat` with its schema guards discharged for the bundled schema family -/
+theorem delete_never_raises_flat (S : Schema) (hS : S ∈ domFamilySchemas) (doc : Node) (f t : Nat)
+    (hv : C01.Valid S doc) (hdoc : C01.IsElem doc) (hn : fnorm doc.kids = true)
+    (hattrs : S.nodeAttrsOK doc = true) (hft : f ≤ t) (hpf : pairAligned doc f = true)
+    (hpt : pairAligned doc t = true) (htr : fitsTriviallyO S doc f t Slice.empty = some true) :
+    replaceStep S doc f t Slice.empty = .ok none ∨
+    ∃ doc', replaceStep S doc f t Slice.empty = .ok (some (.replace f t Slice.empty false)) ∧
+    S.apply (.replace f t Slice.empty false) doc = .ok doc' ∧ C01.Valid S doc' ∧
+    Kept (ftoks doc.kids) (ftoks doc'.kids) f t [] ∧
+    textUnits (ftoks doc'.kids) = textUnits ((ftoks doc.kids).take f) ++ textUnits ((ftoks doc.kids).drop t) :=
+  PM.C11.delete_never_raises_flat S (family_det _ (domFamily_sub _ hS))
+    (family_fillersOK _ (domFamily_sub _ hS)) (family_leafOk _ (domFamily_sub _ hS)) (family_textStable _ hS)
+    doc f t hv hdoc hn hattrs hft hpf hpt htr
+
 end PM.Family.C11
